@@ -245,6 +245,8 @@ pub fn eval_node<F: FnMut(&GraphColoredVertices, &str)>(
                     // check edge case of an empty domain (in that case we cannot restrict the domain,
                     // there would be an error)
                     if var_domain.is_empty() {
+                        // the variable is no longer free (same as after the regular evaluation below)
+                        eval_context.free_var_domains.remove(&var);
                         return match op.clone() {
                             HybridOp::Bind => graph.mk_empty_colored_vertices(),
                             HybridOp::Exists => graph.mk_empty_colored_vertices(),
